@@ -416,6 +416,60 @@ func init() {
 				}
 			}
 		}
+		// any message: where its bytes first differ from the pinned rendering, the pinned layout must not have a fixed-width text
+		// field (a difference inside a scalar or a prefix belongs to other properties)
+		for _, t := range schema.Types {
+			if t.Frame != nil {
+				continue
+			}
+			hasFixed := false
+			for _, op := range t.fieldOps() {
+				if op.K == "fixed" || op.K == "fixeds" {
+					hasFixed = true
+				}
+			}
+			if !hasFixed {
+				continue
+			}
+			for rep := 0; rep < 2; rep++ {
+				v := g.msg(t.ID, false, 0)
+				if rep == 1 {
+					for k, op := range t.fieldOps() {
+						if op.K == "fixed" && op.N > 0 {
+							v.Fs[k] = &Val{K: 's', S: g.runes(1 + g.r.Intn(op.N))}
+						}
+					}
+				}
+				want, ok := renderPinned(v)
+				r := goEnc(v, nil, BufMode{})
+				if !ok || r.Class != "ok" || bytes.Equal(want, r.Appended) {
+					continue
+				}
+				m := 0
+				for m < len(want) && m < len(r.Appended) && want[m] == r.Appended[m] {
+					m++
+				}
+				off := 0
+				for k, op := range t.fieldOps() {
+					g2 := op.G
+					if k < len(t.Enc) {
+						g2 = t.Enc[k].G
+					}
+					fb, ok := renderField(op, g2, v.Fs[k], v.Fs)
+					if !ok {
+						break
+					}
+					if m < off+len(fb) || k == len(t.fieldOps())-1 {
+						if op.K == "fixed" || op.K == "fixeds" {
+							o.violate(Violation{Property: "C13", Kind: "direct", What: fmt.Sprintf("%s.%s: the fixed-width text field is not rendered as exactly its N bytes, padded/cut as specified", t.QName(), t.Fields[k].Name),
+								Case: "enc - " + v.String(), Expected: hexOf(want), Observed: hexOf(r.Appended), Key: "msgfield2:" + t.QName()})
+						}
+						break
+					}
+					off += len(fb)
+				}
+			}
+		}
 		// lists of fixed text
 		for r := 0; r < rounds*4; r++ {
 			op := Op{K: "fixeds", CW: []int{1, 2, 4}[g.r.Intn(3)], N: g.r.Intn(12), Pad: pads[g.r.Intn(len(pads))], Left: g.r.Intn(2) == 0, E: g.endian()}
@@ -569,14 +623,19 @@ func init() {
 				o.violate(Violation{Property: "C14", Kind: "direct", What: "a checksum service is missing or has the wrong result type " + when, Case: "codec.Get", Key: "registry-missing"})
 			}
 		}
-		for _, n := range names {
-			svc, ok := codec.Get(n)
-			if !ok {
-				continue
+		if c, msg := guard(func() error {
+			for _, n := range names {
+				svc, ok := codec.Get(n)
+				if !ok {
+					continue
+				}
+				codec.Remove(n)
+				codec.Registry(svc)
+				checkAll("after " + n + " was removed and registered again")
 			}
-			codec.Remove(n)
-			codec.Registry(svc)
-			checkAll("after " + n + " was removed and registered again")
+			return nil
+		}); c != "ok" {
+			o.violate(Violation{Property: "C14", Kind: "direct", What: "removing and re-registering the default services failed: " + c + " " + msg, Case: "codec.Remove / codec.Registry of CRC16, CRC32, SSE_BIN, SZSE_BIN in turn", Key: "registry-panic"})
 		}
 		// long runs of one byte (sums must stay in 0..255; 8,421,505 x 0xFF overflows an int32 accumulator)
 		reps := []int{1 << 16, 1 << 20, 8421505, 8421505 + 255}
